@@ -82,6 +82,9 @@ std::string propPeriodic(const FmmCase& c, const std::string& prop){
     probe::Ctx ctx(c.salt);
     ctx.dim = Dim; ctx.height = H; ctx.base = H - 1; ctx.periodic = true; ctx.tagSrc = 0; ctx.tagTgt = TSMP ? 1 : 0;
     ctx.leafOf[0] = &ms.leafOf; ctx.rows[0] = &inS.rows;
+    const SI shifterIndex(config);
+    ctx.shifterIndex = &shifterIndex;
+    for(int d = 0 ; d < Dim ; ++d) ctx.boxWidths[d] = double(config.getBoxWidths()[size_t(d)]);
 #if TSMP
     ctx.leafOf[1] = &mtg.leafOf; ctx.rows[1] = &inT.rows;
     tree->applyToAllCellsSource([&](const long level, auto&& header, auto&& m, auto&&){ ctx.multAddr[&(m->get())] = probe::CellId{int(level), fh::hcoord<decltype(header), Dim>(header)}; });
